@@ -35,4 +35,15 @@ theorem bernsteinDeriv_eq_derivative (a b c d t : K) :
   norm_num
   ring
 
+/-- The spline's `tangent` is the derivative with respect to the **local** parameter `u = t·n − k`
+of segment `k`. With respect to the spline's own parameter `t` the curve `t ↦ B(t·n − k)` has the
+derivative `n · B'(t·n − k)`: the whole-curve velocity is `n` times what `tangent` returns. -/
+theorem whole_curve_derivative (a b c d n k t : K) :
+    (derivative ((bernsteinPoly a b c d).comp (C n * X - C k))).eval t
+      = n * bernsteinDeriv a b c d (t * n - k) := by
+  rw [derivative_comp, eval_mul, eval_comp, bernsteinDeriv_eq_derivative]
+  simp only [derivative_sub, derivative_mul, derivative_C, derivative_X, eval_sub, eval_mul, eval_C,
+    eval_X, zero_mul, zero_add, mul_one, sub_zero]
+  rw [mul_comm n t]
+
 end Retro.Props.C17
